@@ -335,6 +335,70 @@ pub fn c01_zero_prefix(rng: &mut Rng, thorough: bool) -> Scenario {
     Scenario { ops, label: format!("c01zero zb={} n={} sep={}", zero_bytes, n, sep) }
 }
 
+/// the LEFT EDGE of the key space: commits that delete the smallest keys (emptying the first leaf or
+/// the first few leaves exactly, while their right neighbour stays untouched) together with a change
+/// far to the right; then changes to that neighbour, then inserts below everything
+pub fn c01_first_leaf(rng: &mut Rng, thorough: bool) -> Scenario {
+    let mut ops = Vec::new();
+    let mut ids = Ids::new();
+    let mut live = Live::default();
+    let mut cfg = gen_cfg(rng);
+    cfg.rollback = false;
+    ops.push(Op::Open(cfg.clone()));
+    let vlen = *rng.pick(&[1300usize, 1300, 900, 400]);
+    let n = rng.range(12, if thorough { 400 } else { 120 }) as usize;
+    let mut keys: Vec<Key> = (0..n).map(|_| rng.key()).collect();
+    keys.sort();
+    keys.dedup();
+    let b: Vec<(Key, Acc)> = keys.iter().map(|k| (*k, Acc::Write(Some((vlen, rng.next() % 1_000_000))))).collect();
+    live.apply(&b);
+    ops.extend(commit_ops(ids.s(), ids.c(), b, false));
+    ops.push(Op::CheckAll { proofs: 2 });
+    let rounds = rng.range(3, if thorough { 10 } else { 6 });
+    for _ in 0..rounds {
+        let cur: Vec<Key> = live.map.keys().copied().collect();
+        if cur.len() < 8 {
+            break;
+        }
+        let mut b: Vec<(Key, Acc)> = Vec::new();
+        match rng.below(4) {
+            0 | 1 => {
+                // delete the m smallest keys, touch one key far to the right, leave the ones in between
+                let m = rng.range(1, 9.min(cur.len() as u64 - 4)) as usize;
+                b.extend(cur[..m].iter().map(|k| (*k, Acc::Write(None))));
+                let far = cur[rng.range((m + 3) as u64, cur.len() as u64 - 1) as usize];
+                b.push((far, Acc::Write(Some((vlen, rng.next() % 1_000_000)))));
+            }
+            2 => {
+                // rewrite the few smallest keys (the leaf that became the first one)
+                for k in cur.iter().take(rng.range(1, 4) as usize) {
+                    b.push((*k, Acc::Write(Some((vlen, rng.next() % 1_000_000)))));
+                }
+            }
+            _ => {
+                // a key below everything, and one just above the smallest
+                let mut k = cur[0];
+                for byte in k.iter_mut() {
+                    if *byte > 0 {
+                        *byte -= 1;
+                        break;
+                    }
+                }
+                b.push((k, Acc::Write(Some((vlen, 9)))));
+                let mut k2 = cur[0];
+                k2[31] ^= 1;
+                b.push((k2, Acc::Write(Some((vlen, 10)))));
+            }
+        }
+        b.sort_by(|a, b| a.0.cmp(&b.0));
+        b.dedup_by(|a, b| a.0 == b.0);
+        live.apply(&b);
+        ops.extend(commit_ops(ids.s(), ids.c(), b, false));
+        ops.push(Op::CheckAll { proofs: 2 });
+    }
+    Scenario { ops, label: format!("c01first n={} vlen={} cc={}", n, vlen, cfg.cc) }
+}
+
 pub fn c02(rng: &mut Rng, thorough: bool) -> Scenario {
     let mut ops = Vec::new();
     let mut ids = Ids::new();
@@ -1127,6 +1191,7 @@ pub fn generate(prop: &str, rng: &mut Rng, thorough: bool) -> Vec<Scenario> {
             0 => c01_prefix_tail(rng, thorough),
             1 => c01_clusters(rng, thorough),
             2 => c01_zero_prefix(rng, thorough),
+            3 => c01_first_leaf(rng, thorough),
             _ => c01(rng, thorough),
         }],
         "C02" => vec![c02(rng, thorough)],
